@@ -56,7 +56,7 @@ def _resupply(t2, spec, refs):
     for idx, (inp, ref) in enumerate(zip(spec['inputs'], refs)):
         i2 = t2.inputs[idx]
         i2.value = ref['amount']
-        if inp['kind'] == 'p2pk':
+        if inp['kind'] in ('p2pk', 'p2pk_u'):
             i2.keys = [Key(ref['pubs'][0].hex(), network=spec['network'])]
             i2.script_type = 'signature'
             i2.update_scripts()
@@ -211,7 +211,7 @@ def _sig_locations(r, idx, kind):
         toks = [d if d is not None else op for op, d in codec.script_tokens(r.vin[idx]['script'])]
         if ms:
             pos = list(range(1, len(toks) - 1))
-        elif kind == 'p2pk':
+        elif kind in ('p2pk', 'p2pk_u'):
             pos = [0]
         else:
             pos = [0]
@@ -495,7 +495,20 @@ def sub_tamper_object(case):
     return {'devs': devs, 'n': n, 'nt': nt, 'out': outs}
 
 
-SUBS = {'hist': sub_hist, 'tamper_bytes': sub_tamper_bytes, 'tamper_object': sub_tamper_object}
+def sub_siglen(case):
+    """Lengths (DER + hash-type byte) of the library's signature of key 0 on input 0 for a window of locktimes."""
+    cfg = case['cfg']
+    out = []
+    for lt in range(case['lo'], case['hi']):
+        spec = _cfg_spec(dict(cfg, locktime=lt), cfg.get('seed', 0))
+        t = txgen.build(spec, sign=False, keys_per_input=[[] for _ in spec['inputs']])
+        comp = txgen.KINDS[spec['inputs'][0]['kind']][2]
+        t.sign(keys=[_libkey(spec['inputs'][0]['keys'][0], comp)], index_n=0)
+        out.append([lt, len(t.inputs[0].signatures[0].as_der_encoded())])
+    return {'ret': out, 'n': len(out), 'out': 'scanned'}
+
+
+SUBS = {'siglen': sub_siglen, 'hist': sub_hist, 'tamper_bytes': sub_tamper_bytes, 'tamper_object': sub_tamper_object}
 
 
 def run(ctx):
@@ -516,6 +529,31 @@ def run(ctx):
     pairs += [[a, a] for a in K] if not q else [['p2wpkh', 'p2wpkh'], ['p2sh_ms', 'p2wsh_ms']]
     for p in pairs:
         cfgs.append({'kinds': p, 'm': 2, 'n': 3 if not q else 2, 'seed': seed})
+    # rare size classes of a signature: the locktime is moved through a window and the library's own signature of
+    # key 0 on input 0 is measured (selection only - the verdicts stay with the reference): the first locktime
+    # giving a signature of <= 70 bytes with its hash-type byte (r or s with a leading zero byte, about 1 in 85)
+    # and the first giving 72 bytes are added as configurations
+    short = []
+    W = 600
+    kinds_s = (['p2wpkh'], ['p2wsh_ms'], ['p2sh_p2wsh_ms'], ['p2sh_p2wpkh'], ['p2pkh'], ['p2sh_ms'], ['p2pk'])
+    bases = []
+    for k in kinds_s:
+        ms = txgen.KINDS[k[0]][3]
+        bases.append({'kinds': k, 'm': 2 if ms else 1, 'n': 3 if ms else 1, 'seed': seed})
+    scans = ctx.pmap('siglen', [{'cfg': b, 'lo': 500000100 + j, 'hi': 500000100 + j + 25} for b in bases
+                                for j in range(0, W, 25)], chunk=1)
+    for bi, base in enumerate(bases):
+        lens = {}
+        for r in scans[bi * (W // 25):(bi + 1) * (W // 25)]:
+            for lt, ln in r:
+                lens.setdefault('short' if ln <= 70 else 'long' if ln >= 72 else 'usual', lt)
+        for tag in ('short',) if q else ('short', 'long'):
+            if tag not in lens:
+                ctx.cap('no %s signature for %s within %d locktimes' % (tag, base['kinds'][0], W))
+                continue
+            short.append(dict(base, locktime=lens[tag], siglen=tag))
+    ctx.note('signature_length_configs', [[c['kinds'][0], c['siglen'], c['locktime']] for c in short])
+    cfgs += short
     depth = 5 if q else 7
     total = ctx.bfs_multi('hist', [(cfg, depth) for cfg in cfgs
                                    if not (len(cfg['kinds']) == 2 and cfg['n'] > 2 and q)], max_states=4000)
